@@ -109,6 +109,9 @@ type c11Case struct {
 	// answers 422). Only set for some real-transport wrong-hash puts.
 	HashBlind bool `json:"hash_blind_services,omitempty"`
 	EnumIdx  string   `json:"enum,omitempty"`
+	// History: for multi-step cases on ONE client, the services lists that
+	// were loaded (and whether a Put was made) before this step's list
+	History []string `json:"history,omitempty"`
 	data     []byte
 }
 
@@ -261,6 +264,10 @@ func (st *c11State) snapshot() ([]c11Req, []string) {
 	defer st.mu.Unlock()
 	return append([]c11Req(nil), st.log...), append([]string(nil), st.unknown...)
 }
+
+type c11RT func(*http.Request) (*http.Response, error)
+
+func (f c11RT) RoundTrip(r *http.Request) (*http.Response, error) { return f(r) }
 
 // c11InProc is the in-process HTTPClient.
 type c11InProc struct{ st *c11State }
@@ -416,7 +423,38 @@ func c11ServicesJSON(c *c11Case, hosts []string, ports []int) string {
 	return string(b)
 }
 
-func (env *c11Env) exec(c *c11Case) {
+// c11Shared: one KeepClient used for several steps (services list refreshed
+// between them). mode json: every step calls LoadKeepServicesFromJSON again;
+// mode api: the client discovers its services from a stub API whose
+// keep_services/accessible answer is replaced between steps.
+type c11Shared struct {
+	kc      *KeepClient
+	mode    string
+	states  sync.Map // request id -> *c11State of the step that made the request
+	stray   int64
+	mu      sync.Mutex
+	list    string
+	fetches int
+}
+
+// Do routes a request of the shared client to the step that issued it (the
+// client stamps every upload with the request id of its Put), so that a late,
+// abandoned upload of an earlier step is never attributed to a later one.
+func (sh *c11Shared) Do(req *http.Request) (*http.Response, error) {
+	v, ok := sh.states.Load(req.Header.Get("X-Request-Id"))
+	if !ok {
+		atomic.AddInt64(&sh.stray, 1)
+		if req.Body != nil {
+			req.Body.Close()
+		}
+		return nil, errors.New("step is over (verif)")
+	}
+	return (&c11InProc{st: v.(*c11State)}).Do(req)
+}
+
+func (env *c11Env) exec(c *c11Case) { env.execOn(c, nil) }
+
+func (env *c11Env) execOn(c *c11Case, sh *c11Shared) {
 	run := env.run
 	env.caseSeq++
 	st := &c11State{c: c, hostIdx: map[string]int{}, nreq: make([]int, len(c.Svcs)), verifyHash: c.API == "PutHR-wronghash" && !c.HashBlind}
@@ -437,16 +475,35 @@ func (env *c11Env) exec(c *c11Case) {
 		Retries:       c.Retries,
 		RequestID:     reqid,
 	}
-	if c.Real {
+	if sh != nil {
+		kc = sh.kc
+		kc.Want_replicas, kc.Retries, kc.RequestID = c.Wanted, c.Retries, reqid
+	}
+	if sh != nil {
+		sh.states.Store(reqid, st)
+		defer sh.states.Delete(reqid)
+		kc.HTTPClient = sh
+	} else if c.Real {
 		env.pool.states.Store(reqid, st)
 		defer env.pool.states.Delete(reqid)
 		kc.HTTPClient = &c11RealClient{p: env.pool, st: st}
 	} else {
 		kc.HTTPClient = &c11InProc{st: st}
 	}
-	if err := kc.LoadKeepServicesFromJSON(c11ServicesJSON(c, hosts, ports)); err != nil {
+	if sh != nil && sh.mode == "api" {
+		// the stub API now answers with this step's list; make the
+		// discovery cache fetch it, and let the client load it
+		sh.mu.Lock()
+		sh.list = c11ServicesJSON(c, hosts, ports)
+		sh.mu.Unlock()
+		kc.RefreshServiceDiscovery()
+		kc.WritableLocalRoots()
+	} else if err := kc.LoadKeepServicesFromJSON(c11ServicesJSON(c, hosts, ports)); err != nil {
 		run.Inconclusive("C11: LoadKeepServicesFromJSON failed: " + err.Error())
 		return
+	}
+	if c.API == "none" {
+		return // a step that only loads a services list
 	}
 
 	var data []byte
@@ -512,6 +569,9 @@ func (env *c11Env) exec(c *c11Case) {
 	}
 
 	bad := func(sig, detail string) {
+		if sh != nil {
+			sig += ":after-services-list-refresh"
+		}
 		b, _ := json.Marshal(log)
 		run.Violation(sig, fmt.Sprintf("%s\nreturned: locator=%q replicas=%d err=%v\nrequest log: %s", detail, loc, rep, err, b), c)
 	}
@@ -748,7 +808,11 @@ func (env *c11Env) exec(c *c11Case) {
 		if err != nil {
 			res = "fail"
 		}
-		run.Feature(fmt.Sprintf("w%d,ro%d,%s,want%d,retr%d,%s,%s,first=%s,maxattempt=%d", nW, nRO, c11Types(c), c.Wanted, c.Retries, c.API, res, strings.Join(fl, "|"), maxAtt))
+		pre := ""
+		if sh != nil {
+			pre = fmt.Sprintf("refreshed-list(%s,step%d),", sh.mode, len(c.History))
+		}
+		run.Feature(pre + fmt.Sprintf("w%d,ro%d,%s,want%d,retr%d,%s,%s,first=%s,maxattempt=%d", nW, nRO, c11Types(c), c.Wanted, c.Retries, c.API, res, strings.Join(fl, "|"), maxAtt))
 	} else {
 		run.Trivial()
 	}
@@ -1060,6 +1124,137 @@ func TestVerifC11(t *testing.T) {
 		env.exec(c)
 		if i < 6 {
 			run.Sample(c)
+		}
+	})
+
+	// ---- multi-step cases on ONE KeepClient: a services list is loaded (and
+	// maybe used), then a refreshed list with the same uuids and addresses but
+	// other read_only / service_type flags (or, for contrast, the same flags
+	// or one service less), then a Put; every Put is judged (U1-U6) against
+	// the list that was loaded LAST.
+	run.Cases("refresh", run.N(8000, 160000), func(i int, rng *verifkit.Rand) {
+		nsvc := rng.Range(2, 5)
+		mode := rng.PickStr("json", "api")
+		uuids := make([]string, nsvc)
+		types := make([]string, nsvc)
+		ro := make([]bool, nsvc)
+		for s := 0; s < nsvc; s++ {
+			uuids[s] = c11UUID(rng)
+			types[s] = rng.PickStr("disk", "disk", "proxy")
+			ro[s] = rng.Chance(1, 3)
+		}
+		fix := func() {
+			any := false
+			for _, r := range ro {
+				any = any || !r
+			}
+			if !any {
+				ro[rng.Intn(len(ro))] = false
+			}
+		}
+		fix()
+		sh := &c11Shared{mode: mode}
+		arv := &arvadosclient.ArvadosClient{Scheme: "http", ApiToken: "veriftoken", Client: http.DefaultClient}
+		if mode == "api" {
+			arv.ApiServer = fmt.Sprintf("c11-api-%d-%d-%d.invalid:443", run.Seed(), run.BatchK(), i)
+			arv.Client = &http.Client{Transport: c11RT(func(r *http.Request) (*http.Response, error) {
+				st, body := 404, `{"errors":["not found"]}`
+				if r.URL.Path == "/arvados/v1/keep_services/accessible" {
+					sh.mu.Lock()
+					st, body = 200, sh.list
+					sh.fetches++
+					sh.mu.Unlock()
+				}
+				return &http.Response{StatusCode: st, Status: fmt.Sprintf("%d %s", st, http.StatusText(st)), Proto: "HTTP/1.1", ProtoMajor: 1, ProtoMinor: 1, Header: http.Header{"Content-Type": {"application/json"}}, Body: io.NopCloser(strings.NewReader(body)), Request: r}, nil
+			})}
+		}
+		sh.kc = &KeepClient{Arvados: arv, Want_replicas: 2}
+		nsteps := rng.PickInt(2, 2, 2, 3)
+		var history []string
+		changes := ""
+		for step := 0; step < nsteps; step++ {
+			if step > 0 {
+				kind := rng.PickStr("flip-ro", "flip-ro", "flip-ro", "flip-ro", "flip-type", "both", "same", "drop-one")
+				if kind == "drop-one" && len(uuids) < 3 {
+					kind = "flip-ro"
+				}
+				switch kind {
+				case "flip-ro", "both":
+					for k := rng.Range(1, 2); k > 0; k-- {
+						j := rng.Intn(len(ro))
+						ro[j] = !ro[j]
+					}
+					fix()
+				}
+				switch kind {
+				case "flip-type", "both":
+					j := rng.Intn(len(types))
+					if types[j] == "disk" {
+						types[j] = "proxy"
+					} else {
+						types[j] = "disk"
+					}
+				case "drop-one":
+					uuids, types, ro = uuids[:len(uuids)-1], types[:len(types)-1], ro[:len(ro)-1]
+					fix()
+				}
+				changes += "," + kind
+			}
+			c := &c11Case{Mode: "refresh-" + mode, Wanted: rng.Range(1, 3), Retries: rng.Range(0, 2), History: append([]string(nil), history...)}
+			for s := range uuids {
+				sv := c11Svc{UUID: uuids[s], Type: types[s], RO: ro[s]}
+				if sv.RO {
+					// would gladly confirm two replicas if it were asked
+					sv.Script = []string{"200r2"}
+				} else {
+					m := rng.Intn(4)
+					for k := 0; k <= c.Retries; k++ {
+						switch m {
+						case 0, 1:
+							sv.Script = append(sv.Script, rng.PickStr("200r1", "200r1", "200nh", "200r2"))
+						case 2:
+							sv.Script = append(sv.Script, rng.PickStr("500", "502", "408", "429", "conn", "200r1"))
+						default:
+							sv.Script = append(sv.Script, rng.PickStr("403", "503", "400", "500", "200r1", "slow:200r1"))
+						}
+					}
+				}
+				c.Svcs = append(c.Svcs, sv)
+			}
+			c.Size = c11PickSize(rng, true)
+			c.DataSeed = rng.Uint64()
+			c11PickAPI(rng, c)
+			c.Decoy = rng.Bool()
+			c11Finish(c)
+			if step < nsteps-1 && rng.Chance(1, 3) {
+				c.API = "none"
+			}
+			run.Input(c, false)
+			env.execOn(c, sh)
+			desc := fmt.Sprintf("list%d{", step)
+			for s := range uuids {
+				desc += fmt.Sprintf("%s:%s:ro=%v ", uuids[s][12:17], types[s], ro[s])
+			}
+			history = append(history, desc+"} put="+c.API)
+			if c.API != "none" {
+				run.Count("puts_after_services_list_refresh_step_"+strconv.Itoa(step), 1)
+			}
+		}
+		run.Count("refresh_sequences", 1)
+		if n := atomic.LoadInt64(&sh.stray); n > 0 {
+			run.Count("refresh_stray_requests_of_finished_steps", int(n))
+		}
+		run.Count("refresh_sequences_"+mode, 1)
+		for _, k := range strings.Split(strings.TrimPrefix(changes, ","), ",") {
+			run.Count("refresh_change_"+k, 1)
+		}
+		if mode == "api" {
+			sh.mu.Lock()
+			if sh.fetches < nsteps {
+				run.Count("refresh_api_fewer_fetches_than_lists", 1)
+			}
+			run.Count("refresh_api_keep_services_fetches", sh.fetches)
+			sh.mu.Unlock()
 		}
 	})
 
